@@ -33,14 +33,14 @@ type matcherInput struct {
 }
 
 func matcherSizes(c *fw.Ctx) []uint64 {
-	return []uint64{8, 16, 24, 32, 40, 64, 72, 128, 256, 512, 4096}
+	return []uint64{8, 16, 24, 32, 40, 64, 72, 128, 256, 512, 2048, 2056, 2048, 4096}
 }
 
 func runMatcher(c *fw.Ctx) {
 	if err := refbloom.SelfTest(); err != nil {
 		panic(err)
 	}
-	n := c.Pick(50, 2500)
+	n := c.Pick(150, 2500)
 	for i := 0; i < n; i++ {
 		runMatcherCase(c, i)
 	}
@@ -50,9 +50,6 @@ func runMatcherCase(c *fw.Ctx, i int) {
 	r := c.Rand("matcher", fmt.Sprint(i))
 	sizes := matcherSizes(c)
 	size := sizes[r.Intn(len(sizes))]
-	if size == 4096 && !r.Chance(1, 4) {
-		size = sizes[r.Intn(len(sizes)-1)]
-	}
 	nsec := r.Range(1, 6)
 	if size >= 512 {
 		nsec = r.Range(1, 2)
@@ -153,11 +150,19 @@ func runMatcherCase(c *fw.Ctx, i int) {
 				}
 			}
 			realv := make([][]byte, refbloom.Bits)
+			complete := true
 			for bit := uint(0); bit < refbloom.Bits; bit++ {
 				v, err := g.Bitset(bit)
 				if err != nil {
-					c.Violate("generator_bitset_unavailable", "Generator.Bitset", "", fmt.Sprintf("bit %d of a full %d-block section: %v", bit, size, err))
-					return
+					if s == 0 {
+						cause := "section_size_below_bloom_bit_length"
+						if size >= refbloom.Bits {
+							cause = "section_size_at_or_above_bloom_bit_length"
+						}
+						c.Violate("generator_bitset_unavailable", "Generator.Bitset", cause, fmt.Sprintf("bit %d of a full %d-block section: %v", bit, size, err))
+					}
+					complete = false
+					break
 				}
 				realv[bit] = v
 				for k := range v {
@@ -167,10 +172,13 @@ func runMatcherCase(c *fw.Ctx, i int) {
 					}
 				}
 			}
-			c.Count("generator_sections_compared")
-			if in.Vectors == "real_generator" {
+			if complete {
+				c.Count("generator_sections_compared")
+			}
+			if in.Vectors == "real_generator" && complete {
 				vectors[s] = realv
 			} else {
+				// the matcher is still checked, over vectors transposed by the reference
 				vectors[s] = refv
 			}
 		}
